@@ -330,16 +330,18 @@ class Engine(ABC, DataDimensionality):
             fail_counter = 0
             # Gradient accumulation
             if (iter_idx + 1) % self.cfg.training.gradient_steps == 0:  # type: ignore
+                # All parameters that are optimized: the model and the additional models (e.g. sensitivity model).
+                parameters = [
+                    parameter for module in (self.model, *self.models.values()) for parameter in module.parameters()
+                ]
                 if self.cfg.training.gradient_steps > 1:  # type: ignore
-                    for parameter in self.model.parameters():
+                    for parameter in parameters:
                         if parameter.grad is not None:
                             # In-place division
                             parameter.grad.div_(self.cfg.training.gradient_steps)  # type: ignore
                 if self.cfg.training.gradient_clipping > 0.0:  # type: ignore
                     self._scaler.unscale_(self.__optimizer)
-                    torch.nn.utils.clip_grad_norm_(
-                        self.model.parameters(), self.cfg.training.gradient_clipping  # type: ignore
-                    )
+                    torch.nn.utils.clip_grad_norm_(parameters, self.cfg.training.gradient_clipping)  # type: ignore
 
                 # Gradient norm
                 if self.cfg.training.gradient_debug:  # type: ignore
